@@ -97,6 +97,13 @@ Theorem C12_can_always_drain : forall W cap, (0 < cap)%N -> forall ls s, run W c
                  ph s' = ph s /\ forall c r, unanswered (rs s' c r) = false.
 Proof. exact ShutdownProofs.can_always_drain. Qed.
 
+(* no request is executed twice or answered twice, on any schedule: in any run the handler of (c, r) is started at
+   most once and finishes (response written) at most once — the counterpart of the duplicate-response monitor *)
+Theorem C12_executed_and_answered_at_most_once : forall W cap early ls s c r, run W cap early init ls = Some s ->
+  count_lab (is_finish c r) ls <= 1 /\ (count_lab (is_finish c r) ls = 1 -> rank (rs s c r) = 6) /\
+  count_lab (is_start c r) ls <= 1 /\ (count_lab (is_start c r) ls = 1 -> 5 <= rank (rs s c r)).
+Proof. exact ShutdownProofs.answered_at_most_once. Qed.
+
 (* The code before the fix violates clause 2 with a pool: after this run request (0,1) is read and queued, and on
    EVERY continuation it stays queued, its connection is never closed by the server and Shutdown never returns
    drained (only its context ends it). Replayed on the unrepaired code by the harness scenario recorded in
@@ -220,6 +227,7 @@ Print Assumptions C12_rank_monotone.
 Print Assumptions C12_pipeline_step_advances.
 Print Assumptions C12_pipeline_work_bounded.
 Print Assumptions C12_can_always_drain.
+Print Assumptions C12_executed_and_answered_at_most_once.
 Print Assumptions C12_progress_refuted_before_fix.
 Print Assumptions C12_notification_partial.
 Print Assumptions C12_notification_refuted.
